@@ -102,11 +102,21 @@ def plan(seed, subbatch):
             faults["drop"] = {"p": 0.05, "max": 3}
         if cfg.random() < 0.3:
             burst = {"p": 0.05, "min": 5, "max": 80}
+    mega = False
+    if subbatch == "faulty" and tf and fill and cfg.random() < (0.03 if planlib.thorough() else 0.006):
+        # a rare outage of tens of thousands of buckets (the library inserts that many fill candles)
+        mega = True
+        per_bucket = max(1, tf_s // base_s)
+        n = cfg.randint(8, 16)
+        faults = {"halt": {"p": 0.12, "min": 21000 * per_bucket, "max": 40000 * per_bucket}}
+        burst = None
     start = world.pick_start(cfg, base_s, tf_s)
     pre, ops, fired, rows = planlib.stream_and_schedule(
         seed, subbatch, n, base_s, start, faults, burst, 0.0, regimes=regimes, regime_len=regime_len,
         scale=scale, first_regime=first, float_volume=cfg.random() < 0.2,
-        max_span_s=(700 * tf_s if tf else None))
+        max_span_s=((100000 if mega else 700) * tf_s if tf else None))
+    if mega:
+        fired["mega_outage_runs"] += 1
     fired["scale_%g" % scale] += 1
     every = 1 if len(ops) <= 40 else cfg.choice((7, 13))
     out = [{"op": "new", "preload": pre}]
@@ -162,6 +172,15 @@ def execute(trace, ctx=None):
         subject = member = None
         n_appends = 0
         produced = False
+        tf_name = (cfg["spec"].get("common") or {}).get("timeframe")
+
+        def span_n(rows):
+            # with gap filling the library legitimately creates one candle per bucket of the span: the
+            # step budget has to scale with that, not only with the number of delivered candles
+            if not tf_name or not rows:
+                return 0
+            return (rows[-1][0] - rows[0][0]) // tf_seconds(tf_name)
+
         for i, op in enumerate(trace["ops"]):
             run.op_index = i
             kind = op["op"]
@@ -169,8 +188,8 @@ def execute(trace, ctx=None):
                 if kind == "new":
                     rows = op.get("preload") or []
                     delivered.extend(rows)
-                    subject, member = run.call(len(rows) * 4, _build, cfg, rows)
-                    run.call(len(rows) * 6, subject.calculate)
+                    subject, member = run.call((len(rows) + span_n(rows)) * 4, _build, cfg, rows)
+                    run.call((len(rows) + span_n(rows)) * 6, subject.calculate)
                 elif subject is None:
                     continue
                 elif kind == "append":
@@ -179,7 +198,7 @@ def execute(trace, ctx=None):
                         continue
                     n_appends += 1 if rows else 0
                     delivered.extend(rows)
-                    run.call(len(delivered) * 6, subject.append, mk_candles(rows))
+                    run.call((len(delivered) + span_n(delivered)) * 6, subject.append, mk_candles(rows))
                     continue
                 elif kind != "check":
                     continue
